@@ -248,6 +248,9 @@ type verifC27Ev struct {
 	seed []verifC27Cell
 	// names: the columns of the table when the change is committed (nil = not examined)
 	names []string
+	// answered: what the database answered when asked for the table's columns at that commit (only
+	// filled in to delimit a recorded defect, see verifC27Answered)
+	answered []string
 }
 
 // ---------------------------------------------------------------------------------------------
@@ -510,7 +513,7 @@ var verifC27Checks = []string{
 }
 
 // verifC27EvIs returns the first demand of the property the delivered event does not meet.
-func verifC27EvIs(ev *verifC27Ev, got *command.CDCEvent, idsOnly bool) string {
+func verifC27EvIs(ev *verifC27Ev, got *command.CDCEvent, idsOnly bool, answered bool) string {
 	if got == nil {
 		return "event-present"
 	}
@@ -530,16 +533,6 @@ func verifC27EvIs(ev *verifC27Ev, got *command.CDCEvent, idsOnly bool) string {
 	if got.Table != verifC27Tables[ev.table] {
 		return "table"
 	}
-	if ev.names != nil {
-		if len(got.ColumnNames) != len(ev.names) {
-			return "column-names"
-		}
-		for j := range ev.names {
-			if got.ColumnNames[j] != ev.names[j] {
-				return "column-names"
-			}
-		}
-	}
 	if ev.op == voInsert {
 		if got.OldRowId != 0 {
 			return "no-old-row-id-on-insert"
@@ -558,7 +551,7 @@ func verifC27EvIs(ev *verifC27Ev, got *command.CDCEvent, idsOnly bool) string {
 		if got.OldRow != nil || got.NewRow != nil {
 			return "ids-only-carries-no-values"
 		}
-		return ""
+		return verifC27NamesAre(ev, got, answered)
 	}
 	if (got.OldRow != nil) != (ev.op != voInsert) {
 		return "old-row-iff-not-insert"
@@ -571,6 +564,28 @@ func verifC27EvIs(ev *verifC27Ev, got *command.CDCEvent, idsOnly bool) string {
 	}
 	if ev.op != voDelete && !verifC27RowIs(ev.new, got.NewRow) {
 		return "new-row-values"
+	}
+	return verifC27NamesAre(ev, got, answered)
+}
+
+// verifC27NamesAre: the event carries the column names of its table (ev.names; nil = not examined).
+// answered = compare with what the database answered when it was asked for the names (ev.answered)
+// instead - only used to delimit the recorded defect "C27-column-names-of-previous-definition".
+func verifC27NamesAre(ev *verifC27Ev, got *command.CDCEvent, answered bool) string {
+	names := ev.names
+	if answered {
+		names = ev.answered
+	}
+	if names == nil {
+		return ""
+	}
+	if len(got.ColumnNames) != len(names) {
+		return "column-names"
+	}
+	for j := range names {
+		if got.ColumnNames[j] != names[j] {
+			return "column-names"
+		}
 	}
 	return ""
 }
@@ -800,7 +815,7 @@ func VerifC27Hook() {
 		mis = "event-count"
 	}
 	for i := 0; mis == "" && i < len(want); i++ {
-		mis = verifC27EvIs(want[i], rec.evs[i], idsOnly)
+		mis = verifC27EvIs(want[i], rec.evs[i], idsOnly, false)
 	}
 	verifC27AssertAll(mis)
 
@@ -1047,21 +1062,109 @@ type verifC27TxShape struct {
 }
 
 // the column names of the database: natively the real (*DB).ColumnNames (what store.Store hands to
-// NewCDCStreamer), in the engine the harness' table definitions
+// NewCDCStreamer). In the engine the answer comes from the harness' table definitions the way the
+// real one was observed to answer (replay_test.go TestVerifC27Calibrate; recorded defect
+// "C27-column-names-of-previous-definition"): (*DB).ColumnNames takes the names from a statement
+// prepared on a read connection, and that connection only notices that the write connection changed
+// a definition when it runs the statement - after the names were taken. So the answer describes the
+// definitions as they were when the database was asked the previous time (for any table).
+// Both worlds record every answer next to the truth, for the oracle.
 type verifC27LiveNames struct {
-	d *DB
+	d     *DB
+	seen  [3][]string // engine: the definitions the read connection has loaded
+	asked bool
+	prev  [3][]string // the definitions when the database was asked the previous time
+	calls []verifC27NamesCall
+}
+
+type verifC27NamesCall struct {
+	table  int
+	got    []string // the answer
+	truth  []string // the table's columns at that moment
+	before []string // the table's columns when the database was asked the previous time (nil: never)
+}
+
+func verifC27SameNames(a, b []string) bool {
+	if len(a) != len(b) {
+		return false
+	}
+	for i := range a {
+		if a[i] != b[i] {
+			return false
+		}
+	}
+	return true
 }
 
 func (p *verifC27LiveNames) ColumnNames(table string) ([]string, error) {
-	if !verifSymbolic() {
-		return p.d.ColumnNames(table)
-	}
-	for t, name := range verifC27Tables {
+	t := -1
+	for i, name := range verifC27Tables {
 		if name == table {
-			return append([]string{}, verifC27World.cols[t]...), nil
+			t = i
 		}
 	}
-	return nil, errors.New("no such table: " + table)
+	if t < 0 {
+		return nil, errors.New("no such table: " + table)
+	}
+	var got []string
+	var err error
+	if !verifSymbolic() {
+		got, err = p.d.ColumnNames(table)
+	} else {
+		if !p.asked {
+			p.seen = verifC27World.cols // its first statement: the definitions are loaded
+		}
+		got = append([]string{}, p.seen[t]...)
+		p.seen = verifC27World.cols
+	}
+	call := verifC27NamesCall{table: t, got: got, truth: verifC27World.cols[t]}
+	if err != nil {
+		call.got = nil
+	}
+	if p.asked {
+		call.before = p.prev[t]
+	}
+	p.calls = append(p.calls, call)
+	p.asked, p.prev = true, verifC27World.cols
+	return got, err
+}
+
+// staleOnly: at least one answer was not the truth, and every answer that was not the truth was
+// the table's definition as of the previous time the database was asked.
+func (p *verifC27LiveNames) staleOnly() bool {
+	stale := false
+	for _, c := range p.calls {
+		if c.got != nil && verifC27SameNames(c.got, c.truth) {
+			continue
+		}
+		if c.got == nil || c.before == nil || !verifC27SameNames(c.got, c.before) {
+			return false
+		}
+		stale = true
+	}
+	return stale
+}
+
+// verifC27Answered notes at every event of the groups what the database answered for its table
+// when the group was committed (the database is asked once per table and group, in the order the
+// tables appear in the group); false = the answers do not line up with the groups that way.
+func verifC27Answered(groups [][]*verifC27Ev, calls []verifC27NamesCall) bool {
+	k := 0
+	for _, grp := range groups {
+		var have [3]bool
+		var names [3][]string
+		for _, ev := range grp {
+			if !have[ev.table] {
+				if k >= len(calls) || calls[k].table != ev.table || calls[k].got == nil {
+					return false
+				}
+				names[ev.table], have[ev.table] = calls[k].got, true
+				k++
+			}
+			ev.answered = names[ev.table]
+		}
+	}
+	return k == len(calls)
 }
 
 // verifC27WantGroups: keepRolledBack=false is the property; true describes the recorded defect
@@ -1092,7 +1195,7 @@ func verifC27WantGroups(txs []verifC27TxShape, filter int, keepRolledBack bool) 
 	return groups
 }
 
-func verifC27GroupsAre(want [][]*verifC27Ev, got []*command.CDCIndexedEventGroup, idsOnly bool) string {
+func verifC27GroupsAre(want [][]*verifC27Ev, got []*command.CDCIndexedEventGroup, idsOnly bool, answered bool) string {
 	if len(got) != len(want) {
 		return "group-count"
 	}
@@ -1101,7 +1204,7 @@ func verifC27GroupsAre(want [][]*verifC27Ev, got []*command.CDCIndexedEventGroup
 			return "group-size"
 		}
 		for i := range want[k] {
-			if mis := verifC27EvIs(want[k][i], got[k].Events[i], idsOnly); mis != "" {
+			if mis := verifC27EvIs(want[k][i], got[k].Events[i], idsOnly, answered); mis != "" {
 				return mis
 			}
 		}
@@ -1214,7 +1317,8 @@ func VerifC27Chain() {
 
 	ch := make(chan *command.CDCIndexedEventGroup, 8)
 	d := verifC27Open(2)
-	s, err := NewCDCStreamer(ch, &verifC27LiveNames{d: d})
+	names := &verifC27LiveNames{d: d}
+	s, err := NewCDCStreamer(ch, names)
 	if err != nil {
 		panic(err)
 	}
@@ -1265,7 +1369,7 @@ func VerifC27Chain() {
 	}
 	want := verifC27WantGroups(txs, filter, false)
 	if mis == "" {
-		mis = verifC27GroupsAre(want, got, idsOnly)
+		mis = verifC27GroupsAre(want, got, idsOnly, false)
 	}
 	if mis != "" && !vetoed {
 		// Recorded defect: nothing tells the streamer that a transaction was rolled back, so the
@@ -1280,8 +1384,26 @@ func VerifC27Chain() {
 				}
 			}
 		}
-		if rolled && verifC27GroupsAre(verifC27WantGroups(txs, filter, true), got, idsOnly) == "" {
+		if rolled && verifC27GroupsAre(verifC27WantGroups(txs, filter, true), got, idsOnly, false) == "" {
 			verifFinding("C27-rolled-back-changes-reported")
+		}
+		// Second recorded defect: (*DB).ColumnNames answers with the definition of the table as of
+		// the previous time it was asked, so the first group committed after ALTER TABLE carries
+		// the column names of the previous definition. Class: some answer of the database was not
+		// the truth, every such answer was the definition as of the previous question, and what is
+		// observed is exactly "the events carry the names the database answered" - everything else
+		// as the property demands (or, when a transaction that changed a row the filter lets
+		// through was rolled back, as the first recorded defect describes).
+		if names.staleOnly() {
+			for _, keep := range []bool{false, true} {
+				if keep && !rolled {
+					continue
+				}
+				w := verifC27WantGroups(txs, filter, keep)
+				if verifC27Answered(w, names.calls) && verifC27GroupsAre(w, got, idsOnly, true) == "" {
+					verifFinding("C27-column-names-of-previous-definition")
+				}
+			}
 		}
 	}
 	verifC27AssertAll(mis)
